@@ -71,26 +71,49 @@ Four == [params |-> P1("x"), nsa |-> "", ta |-> "",
                     [k |-> "msg", desc |-> "m", body |-> <<Pr("q5", Var("x"))>>],
                     Tx("Z")>>]
 
-TheBundle == ("c.one" :> One) @@ ("c.two" :> Two) @@ ("c.three" :> Three) @@ ("c.four" :> Four)
-PrintIds == {"q1", "q2", "q3", "q4", "q5", "q6"}
+\* hands one of the caller's own maps to the callee through a FUNCTION result
+\* (augmentMap with an empty second map) and adds a param on top; $m is the
+\* shared-data cell: the same map object in the data of several renders
+Five == [params |-> <<[name |-> "x", opt |-> FALSE], [name |-> "m", opt |-> FALSE]>>, nsa |-> "", ta |-> "",
+         body |-> <<[k |-> "call", tmpl |-> "c.one", data |-> "expr",
+                     de |-> [k |-> "fn", name |-> "augmentMap", args |-> <<Var("m"), [k |-> "map", items |-> <<>>]>>],
+                     params |-> <<[k |-> "pv", key |-> "x", e |-> Var("x")]>>],
+                    Pr("q7", [k |-> "elvis", a |-> [k |-> "var", name |-> "m", acc |-> <<[k |-> "key", ns |-> TRUE, key |-> "x"]>>],
+                              b |-> [k |-> "str", v |-> "-"]])>>]
 
-\* shared data maps
-DataSets == [good |-> [x |-> S("v<"), xs |-> L(<<I(1), I(2)>>)],
-             bad  |-> [xs |-> L(<<I(3)>>)]]        \* no x: printing it fails
+TheBundle == ("c.one" :> One) @@ ("c.two" :> Two) @@ ("c.three" :> Three) @@ ("c.four" :> Four) @@ ("c.five" :> Five)
+PrintIds == {"q1", "q2", "q3", "q4", "q5", "q6", "q7"}
+
+\* Shared caller data.  The data maps are shared by the renders that use them;
+\* in addition the map under "m" is ONE object, held by the cell sh.shared and
+\* referred to from two different top-level data maps (good, good2).
+Shared0 == [m |-> [k |-> S("base")]]
+DataSets == [good  |-> [x |-> S("v<"), xs |-> L(<<I(1), I(2)>>), m |-> M(Shared0.m)],
+             good2 |-> [x |-> S("w"), m |-> M(Shared0.m)],
+             bad   |-> [xs |-> L(<<I(3)>>)]]        \* no x: printing it fails
 
 Cases == << [t |-> "c.one", d |-> "good"],     \* 3 node steps
             [t |-> "c.two", d |-> "good"],     \* 3
             [t |-> "c.three", d |-> "good"],   \* 5
             [t |-> "c.four", d |-> "good"],    \* 6
-            [t |-> "c.one", d |-> "bad"] >>    \* 1, fails at its first print
+            [t |-> "c.one", d |-> "bad"],      \* 1, fails at its first print
+            [t |-> "c.five", d |-> "good"],    \* 5
+            [t |-> "c.five", d |-> "good2"] >> \* 5, another top-level map, the same $m
+
+\* pairs: all pairs of the first five cases; the shared-map case with itself
+\* (same top-level map) and with the case that reaches the same $m through
+\* another top-level map
+Pairs == {q \in {<<i, j>> : i \in 1..5, j \in 1..5} : q[1] <= q[2]}
+         \cup {<<6, 6>>, <<6, 7>>}
 
 Groups == IF GSize = 2
-          THEN {q \in {<<i, j>> : i \in 1..Len(Cases), j \in 1..Len(Cases)} : q[1] <= q[2]}
+          THEN Pairs
           ELSE {q \in {<<i, j, k>> : i \in Small, j \in Small, k \in Small} : q[1] <= q[2] /\ q[2] <= q[3]}
 
 TheCfg == IF CfgName = "oblig" THEN [oblig |-> <<"exclaim">>, dirs |-> {"exclaim"}, fns |-> NoFn] ELSE NoCfg
 
-Sh0 == [dirs |-> [id \in PrintIds |-> IF id = "q2" THEN D3 ELSE IF id = "q1" THEN DM ELSE <<>>], memo |-> [x \in {} |-> <<>>]]
+Sh0 == [dirs |-> [id \in PrintIds |-> IF id = "q2" THEN D3 ELSE IF id = "q1" THEN DM ELSE <<>>], memo |-> [x \in {} |-> <<>>],
+        shared |-> Shared0]
 
 ProgOf(c) == [bundle |-> TheBundle, entry |-> Cases[c].t, data |-> DataSets[Cases[c].d], ij |-> NoIJ,
               glob |-> [x \in {} |-> Null], plan |-> [kind |-> "none"], cfg |-> TheCfg]
@@ -133,7 +156,8 @@ StepsAsSolo ==
   Done => \A g \in 1..Len(grp) :
             Cardinality({i \in 1..Len(sched) : sched[i] = g}) = StepsTab[grp[g]]
 
-Setup == [cfgname |-> CfgName, oblig |-> TheCfg.oblig, bundle |-> TheBundle, data |-> DataSets, cases |-> Cases]
+Setup == [cfgname |-> CfgName, oblig |-> TheCfg.oblig, bundle |-> TheBundle, data |-> DataSets, cases |-> Cases,
+          shared |-> [k \in DOMAIN Shared0 |-> M(Shared0[k])]]
 ExportSetup == Len(sched) = 0 => PrintT(ToJson([setup |-> Setup]))
 ExportSchedule ==
   Done => PrintT(ToJson([g |-> grp, s |-> sched,
